@@ -36,7 +36,7 @@ RemoveAt(s, i) == SubSeq(s, 1, i - 1) \o SubSeq(s, i + 1, Len(s))
 Occurs(s, x) == \E i \in 1..Len(s) : s[i] = x
 IndexOf(s, x) == (CHOOSE i \in 1..Len(s) : s[i] = x /\ \A j \in 1..(i - 1) : s[j] # x) - 1
 
-St0 == [lst |-> <<>>, corrupt |-> FALSE]
+St0 == [lst |-> <<>>, corrupt |-> FALSE, cyclic |-> FALSE]
 
 NewLst(s, e) ==
   CASE e.op = "new"     -> e.items
@@ -49,7 +49,10 @@ NewLst(s, e) ==
 (* KF_C19_setitem_at_len: c[len(c)] = x does not raise IndexError but writes rdf:first on rdf:nil (or on the
    empty head); an existing test pins this, so it is modelled as a named deviation after which the chain is broken *)
 DevSetAtLen(s, e) == "KF_C19_setitem_at_len" \in Devs /\ e.op = "setitem" /\ (e.i = Len(s.lst) \/ (s.lst = <<>> /\ e.i = 1)) /\ e.res.k = "ok"
-ApplyEv(s, e) == [lst |-> NewLst(s, e), corrupt |-> s.corrupt \/ e.op = "corrupt" \/ DevSetAtLen(s, e)]
+ApplyEv(s, e) == [lst |-> NewLst(s, e), corrupt |-> s.corrupt \/ e.op = "corrupt" \/ DevSetAtLen(s, e),
+                  cyclic |-> s.cyclic \/ (e.op = "corrupt" /\ e.kind \in {"cycle_head", "cycle_mid"})]
+(* a read that has to walk the whole chain: on a cyclic chain there is no end to reach, the read raises (it neither loops nor answers) *)
+WalksAll(s, e) == e.op \in {"len", "iter"} \/ (e.op \in {"index", "contains"} /\ ~Occurs(s.lst, e.x))
 
 Ops == {"new", "append", "iadd", "setitem", "delitem", "clear", "getitem", "index", "contains", "len", "iter", "corrupt"}
 
@@ -74,7 +77,9 @@ ResVerdict(s, e) ==
 Judge(s, e) ==
   IF e.op \notin Ops THEN "UnknownEvent"
   ELSE IF s.corrupt \/ e.op = "corrupt"
-       THEN (IF Has(e, "res") /\ e.res.k = "timeout" THEN "Terminates" ELSE "ok")      \* reads on a broken chain must return or raise
+       THEN (IF Has(e, "res") /\ e.res.k = "timeout" THEN "Terminates"
+             ELSE IF s.cyclic /\ WalksAll(s, e) /\ Has(e, "res") /\ e.res.k # "raise" THEN "CyclicChainRaises"
+             ELSE "ok")      \* reads on a broken chain must return or raise
   ELSE IF Has(e, "res") /\ e.res.k = "timeout" THEN "Terminates"
   ELSE IF DevSetAtLen(s, e) THEN "ok"
   ELSE LET v0 == ResVerdict(s, e) IN
